@@ -110,6 +110,13 @@ def make_settings(kind, rng, normalizer=True, vary_normalizers=False):
             ]
         )
         sdmx = S.SDMXFullSettings(dict(d))
+    if vary_normalizers and sdmx is not None and kind in ("sdmx", "sdmxg", "sdmx1", "nldf_j_sdmx"):
+        # (only for the save/load engine) fractional powers of r are documented and supported;
+        # the choice is derived from the settings, not drawn from the caller's generator
+        r_ = Rng(derive("zoo-sdmx-pows", kind, repr(list(sdmx.pows))))
+        if r_.chance(0.4):
+            fp = r_.choice([[0, 1.5], [0.5, 1], [0.5], [1, 2.5]])
+            sdmx = {"sdmx": lambda: S.SDMXSettings(fp), "nldf_j_sdmx": lambda: S.SDMXSettings(fp), "sdmxg": lambda: S.SDMXGSettings(fp, 1), "sdmx1": lambda: S.SDMX1Settings(fp, 1)}[kind]()
     st = S.FeatureSettings(sl_settings=sl, nldf_settings=nldf, sdmx_settings=sdmx)
     if normalizer:
         try:
@@ -230,8 +237,11 @@ def _make_fevals(kind, N1, rng, mode, bounds, layout=None):
             hi = np.array([min(b[1], 2.0) for b in bounds])
             ls = nprng.uniform(0.3, 1.0, N1)
             scale = float(nprng.uniform(0.5, 1.5))
-            kern = DiffConstantKernel(scale, constant_value_bounds="fixed") * DiffRBF(
-                length_scale=ls, length_scale_bounds="fixed"
+            # a third of the kernels keep the bounds a trained model has (hyper-parameters that the
+            # optimiser may move, i.e. a non-empty theta); the choice is derived, not drawn
+            bnd = "fixed" if derive("zoo-kernel-bounds", repr(scale)) % 3 else (1e-5, 1e5)
+            kern = DiffConstantKernel(scale, constant_value_bounds=bnd) * DiffRBF(
+                length_scale=ls, length_scale_bounds=bnd
             )
             alpha = nprng.normal(size=nctrl) * 0.05
             if nctrl >= 4 and derive("zoo-sparse-weights", repr(float(alpha[0]))) % 10 < 3:
